@@ -23,9 +23,13 @@ BASELINE = os.path.join(VERIF, "contracts", "EXPECTED_OBLIGATIONS.json")
 # assumed contracts of external dependencies that can be exercised offline, per property (drivers/stub_conformance.py)
 # functions outside the engine's subset: labelled BOUNDED stand-ins, run on every check, never counted as proved
 BOUNDED_STANDINS = {
-    "C01": [("raw JSON framing (_JSONParser.raw_parse, _split_partial_document)", ["drivers/json_raw.py", "--pairs", "--max-len"], {"quick": "3", "thorough": "4"})],
-    "C02": [("raw JSON framing (_JSONParser.raw_parse, _split_partial_document)", ["drivers/json_raw.py", "--pairs", "--max-len"], {"quick": "3", "thorough": "4"})],
-    "C06": [("raw JSON framing (_JSONParser.raw_parse, _split_partial_document)", ["drivers/json_raw.py", "--max-len"], {"quick": "3", "thorough": "4"})],
+    "C01": [("shipped framings end to end on the real code: raw JSON, zlib / bz2 wrappers, length-prefixed file-based subclass, base64, line, struct - valid in-limit packets and one malformed frame under every chunking tried, both receive paths", ["drivers/framings.py", "--budget"], {"quick": "300000", "thorough": "3000000"}),
+            ("raw JSON framing (_JSONParser.raw_parse, _split_partial_document)", ["drivers/json_raw.py", "--pairs", "--max-len"], {"quick": "3", "thorough": "4"})],
+    "C02": [("shipped framings end to end on the real code: raw JSON, zlib / bz2 wrappers, length-prefixed file-based subclass, base64, line, struct - valid in-limit packets and one malformed frame under every chunking tried, both receive paths", ["drivers/framings.py", "--budget"], {"quick": "300000", "thorough": "3000000"}),
+            ("raw JSON framing (_JSONParser.raw_parse, _split_partial_document)", ["drivers/json_raw.py", "--pairs", "--max-len"], {"quick": "3", "thorough": "4"})],
+    "C06": [("shipped framings end to end on the real code: raw JSON, zlib / bz2 wrappers, length-prefixed file-based subclass, base64, line, struct - valid in-limit packets and one malformed frame under every chunking tried, both receive paths", ["drivers/framings.py", "--budget"], {"quick": "300000", "thorough": "3000000"}),
+            ("raw JSON framing (_JSONParser.raw_parse, _split_partial_document)", ["drivers/json_raw.py", "--max-len"], {"quick": "3", "thorough": "4"})],
+    "C07": [("shipped framings end to end on the real code: raw JSON, zlib / bz2 wrappers, length-prefixed file-based subclass, base64, line, struct - valid in-limit packets and one malformed frame under every chunking tried, both receive paths", ["drivers/framings.py", "--budget"], {"quick": "300000", "thorough": "3000000"})],
     "C12": [("FairLock.acquire/release/_wake_up_first (rely-guarantee over a queue of waiters: not brought under contract)", ["drivers/fair_lock.py"], {"quick": "", "thorough": ""})],
 }
 CONFORMANCE_SAMPLES = {
